@@ -107,7 +107,7 @@ class Engine:
         if not self.fp_used and self.inc is not None:
             r, _ = self._inc_query(extra, False)
         else:
-            r, _ = smt.solve(self.pc + _real_list(extra), timeout_ms=self._tmo(), external=self.external)
+            r, _ = smt.solve_sliced(_real_list(self.pc), _real_list(extra), timeout_ms=self._tmo(), external=self.external)
         self.stats["queries"] += 1
         self.stats["solver_s"] += time.time() - t
         if r == "unknown":
@@ -121,8 +121,8 @@ class Engine:
         if not self.fp_used and self.inc is not None:
             r, m = self._inc_query(extra, True)
         else:
-            r, m = smt.solve(self.pc + _real_list(extra), timeout_ms=self._tmo(), external=self.external,
-                             model_vars=[v for _, v in self.inputs])
+            r, m = smt.solve_sliced(_real_list(self.pc), _real_list(extra), timeout_ms=self._tmo(), external=self.external,
+                                    model_vars=[v for _, v in self.inputs])
         self.stats["queries"] += 1
         self.stats["solver_s"] += time.time() - t
         if r == "unknown":
